@@ -194,7 +194,10 @@ func (e *Exec) checkNodeAgainstSpec(c *chainlib.Node, blk int, tag, key string) 
 	save := e.w.Main
 	obs := e.observe(c)
 	_ = save
+	lh := c.L.GetMeta().TrunkHeight
+	e.obsLedgerH = &lh
 	want := e.specObserve(s, blk, m.IrreversibleBlockHeight)
+	e.obsLedgerH = nil
 	if obs != want {
 		e.violate(key+"-differs", fmt.Sprintf("%s: state at block %d with pool %v {%s} differs from genesis..%d + pool {%s}", tag, blk, pool, obs, blk, want), "")
 	}
